@@ -395,19 +395,36 @@ func runStorageHistory(r *vrt.Run, dir string, c faultCase) (out []vrt.Finding) 
 	}
 	prevObs, nq := probeStorage(ctx, s, 1)
 	r.Trans(1 + len(positions) + nq)
-	for _, lst := range lists {
-		if prevObs[lst] != "v0" {
-			vrt.Fatalf("after the initial refresh list %s serves %s, want v0", lst, prevObs[lst])
-		}
-	}
 	prevFiles, _, err := readCacheDir(dir)
 	if err != nil {
 		vrt.Fatalf("reading cache dir: %v", err)
 	}
+	// The establishing round is judged like any other round without
+	// deviations: before it every list is absent and there are no cache files.
+	absent := map[string]string{}
+	for _, lst := range storageLists {
+		absent[lst] = stAbsent
+	}
+	checkStorageRound(fs, 0, nil, absent, prevObs, map[string]string{}, prevFiles)
+	if foreign, nf := foreignContent(ctx, s, 1); foreign != "" {
+		r.Trans(nf)
+		fs.add("serve/list-serves-another-lists-content", "establishing round: %s", foreign)
+	}
+	established := true
+	for _, lst := range lists {
+		established = established && prevObs[lst] == "v0"
+	}
 	for _, pos := range positions {
-		if prevFiles[cacheFileOf(pos)] != content(pos, 0) {
-			vrt.Fatalf("after the initial refresh cache file %s is %s", cacheFileOf(pos), short(prevFiles[cacheFileOf(pos)]))
+		established = established && prevFiles[cacheFileOf(pos)] == content(pos, 0)
+	}
+	if !established {
+		if len(fs.list) == 0 {
+			// Vacuity guard: nothing judged wrong, yet version 0 is not there.
+			vrt.Fatalf("establishing round: serve[%s], cache files %v, no finding", fmtObs(prevObs), len(prevFiles))
 		}
+		r.Class("establishing-round-broken")
+
+		return fs.list
 	}
 
 	for round := 1; round <= c.Rounds; round++ {
@@ -526,6 +543,10 @@ func runStorageHistory(r *vrt.Run, dir string, c faultCase) (out []vrt.Finding) 
 			if st := obs[lst]; !isComplete(st) && st != stAbsent {
 				fs.add("restart/incomplete-or-mixed-version", "after history %+v a restarted storage serves list %s as %s", c.Devs, lst, st)
 			}
+		}
+		if foreign, nf := foreignContent(ctx, s2, versions); foreign != "" {
+			r.Trans(nf)
+			fs.add("restart/list-serves-another-lists-content", "after history %+v a restarted storage: %s", c.Devs, foreign)
 		}
 		r.Class("restart:ok")
 		fmt.Fprintf(log, "restart serve[%s]\n", fmtObs(obs))
